@@ -6,7 +6,16 @@ from . import parts
 def run(tier):
     ck = common.Check('C13', tier)
     parts.run_parts(ck, tier, witness_parts=('c13_traits', 'c13_twins'), ir_parts=('ir_rawcopy',))
+    # R13.5: law agreement between the byte-copy and the element-wise twins of the range helpers
+    from .. import corpus, irrules
+    from . import ir_twins
+    res = corpus.run_over(corpus.corpus(tier), 'svlib.rules.ir_twins', 'analyse_tu')
+    irrules.aggregate(ck, res)
+    n = ir_twins.compare(ck, [r['res'] for r in res if r['ok']])
+    ck.floor('range-helper laws compared between element flavours', n, 60 if tier == 'quick' else 600)
     ck.finish(
+        'R13.5 (IR): every pure range helper (2-3 element pointers in, a position out) has the same inferred law - result and '
+        'destination/source byte ranges - whether the configuration selects its memcpy/memmove implementation or its element-wise one. '
         'R13.1 (type level): over a grid of (From, To) value pairs and iterator kinds, whenever one of the header\'s byte-copy '
         'traits (is_memcpyable, is_uninitialized_memcpyable, is_memcpyable_integral, is_convertible_pointer, '
         'is_contiguous_iterator, is_(uninitialized_)memcpyable_iterator) says yes, an oracle written from [conv] and the Itanium '
